@@ -14,7 +14,7 @@ Statement: {p['statement']}
 Quantified over: {p['quantifier']['text']}
 Code it is anchored in: {', '.join(p['anchors']['files'])}
 
-{"Note: other people have already seeded regressions for this property (you do not know which). Do NOT go for the single most obvious site or the most obvious off-by-one: pick a different mechanism - a second anchored file, a rarely taken branch, a version- or mode-specific path, an error/cleanup path, or two cooperating sites." if rnd else ""}
+{"Note: other people have already seeded several regressions for this property (you do not know which). Do NOT go for the single most obvious site or the most obvious off-by-one: pick a different mechanism - a second anchored file, a rarely taken branch, a version- or mode-specific path, an error/cleanup path, or two cooperating sites." if rnd else ""}
 
 Task: make ONE realistic change to the project's non-test source that BREAKS this property while
 (1) the project still compiles, and (2) the project's existing tests still pass. The change should look like a plausible refactoring slip or 'optimisation' by a maintainer, and it must need something specific to manifest — a particular interleaving, a fault at a particular point, a multi-step sequence of operations, an unusual input, a boundary value, or two cooperating sites that each look fine alone — not something ordinary use would expose at once. Do not add new exported API, do not touch test files of the project, keep the change small (a few lines, at most two sites).
